@@ -30,7 +30,8 @@ RULE = ("bin tables with 1-3 chromosomes (fixed width with short last bin, varia
         "ids (dense view compared up to 20 bins, sparse view for 300); unordered creation (ordered=False / default for an iterable) over the grid number of chunks 1..17 x max_merge {0,1,2,3,4,10,200} x mergebuf "
         "{1,2,7,2e7} (quick: mergebuf rotating; thorough: full cross + 230 chunks with the default max_merge) with sorted-disjoint / interleaved-with-"
         "duplicates-across-chunks / empty-chunk layouts, shuffled chunk order, ensure_sorted, both storage modes, extra columns; "
-        "numeric dtype edges: every (input dtype, stored dtype) pair over int8..int64 / uint8..uint64 (+ integral float64 input) for the count and for an "
+        "the boolean creation flags passed as Python bools, numpy booleans and 0/1 ints (a third each) through create_cooler, create and "
+        "create_from_unordered; numeric dtype edges: every (input dtype, stored dtype) pair over int8..int64 / uint8..uint64 (+ integral float64 input) for the count and for an "
         "extra column, values at min / max / max+1 / min-1 / -1 / 0 of both types, through frame / dict / ordered chunks / unordered chunks: in-range "
         "values round-trip exactly, a value outside the stored range is refused with a ValueError; "
         "process history: re-iterable input objects (ArrayLoader, list / tuple of chunks, DataFrame, dict) iterated by hand before the creation and fed to "
@@ -107,7 +108,29 @@ def _represent(d, form, rep):
     return d
 
 
+BOOL_FLAGS = ("symmetric_upper", "ordered", "boundscheck", "triucheck", "dupcheck", "ensure_sorted")
+
+
+def _flag_types(kw, how):
+    """the boolean creation flags as the caller may well hold them: numpy booleans (e.g. the result of (M == M.T).all()) or 0/1"""
+    for k in BOOL_FLAGS:
+        if k in kw and isinstance(kw[k], bool):
+            kw[k] = (np.True_ if kw[k] else np.False_) if how == "numpy" else int(kw[k])
+    return kw
+
+
 def build_input(case, workdir=None, need_px=True):
+    bins, px, kw = _build_input(case, workdir, need_px)
+    how = case.get("rep", {}).get("flag_type")
+    if how:
+        if how == "numpy" and "symmetric_upper" in kw:     # computed the way a user would: from the matrix itself
+            kw["symmetric_upper"] = (np.array([[1, 2], [2, 1]]) == np.array([[1, 2], [2, 1]]).T).all() if kw["symmetric_upper"] \
+                else (np.array([[1, 2], [3, 1]]) == np.array([[1, 2], [3, 1]]).T).all()
+        _flag_types(kw, how)
+    return bins, px, kw
+
+
+def _build_input(case, workdir=None, need_px=True):
     """returns (bins, pixels-argument, kwargs) for create_cooler"""
     import cooler
     from cooler.create import ArrayLoader
@@ -254,13 +277,17 @@ def _impl_one(case, path, px_override=None, keep_file=False):
     grp = rep.get("uri")                                  # destination group, spelled as given ("g/h", "/g/h", ...)
     uri = path if not grp else path + "::" + grp
     gpath = "/" if not grp else "/" + grp.strip("/")
-    if rep.get("api") == "create":                        # cooler.create.create directly (mode None -> append flag rule)
+    if rep.get("api") == "unordered_direct":              # cooler.create.create_from_unordered called directly
+        from cooler.create import create_from_unordered as _cfu
+        kw.pop("ordered", None)
+        st, val = G.guarded(lambda: _cfu(uri, bins, px, **kw))
+    elif rep.get("api") == "create":                        # cooler.create.create directly (mode None -> append flag rule)
         from cooler.create import create as _create
         kw.pop("ordered", None)
         if rep.get("dtype_kw") and "dtypes" in kw:
             kw["dtype"] = kw.pop("dtypes")
         st, val = G.guarded(lambda: _create(uri, bins, px, **kw))
-    else:
+    elif rep.get("api") != "unordered_direct":
         st, val = G.guarded(lambda: cooler.create_cooler(uri, bins, px, **kw))
     if st != "ok":
         return {"result": G.err_kind_of_message(st, val)}
@@ -315,6 +342,7 @@ def _impl_one(case, path, px_override=None, keep_file=False):
             out["joined"] = [[str(a), int(b_), int(c_), str(d_), int(e_), int(f_)] for a, b_, c_, d_, e_, f_ in
                              zip(jp["chrom1"].astype(str), jp["start1"], jp["end1"], jp["chrom2"].astype(str), jp["start2"], jp["end2"])]
         inf = clr.info
+        out["clr_storage_mode"] = str(clr.storage_mode)
         out["info_metadata"] = inf.get("metadata")
         out["info_assembly"] = inf.get("genome-assembly")
         out["info_nnz"] = int(inf["nnz"])
@@ -421,8 +449,8 @@ def oracle(case, out):
         bad.append(("nnz", len(exp), out["nnz"]))
     if case["cols"][0][0] == "count" and not case.get("skip_sum") and out["sum"] != sum(r[2][0] for r in exp):
         bad.append(("sum", sum(r[2][0] for r in exp), out["sum"]))
-    if out["storage-mode"] != ("symmetric-upper" if case["symm"] else "square"):
-        bad.append(("storage-mode", case["symm"], out["storage-mode"]))
+    if out["storage-mode"] != ("symmetric-upper" if case["symm"] else "square") or out.get("clr_storage_mode", out["storage-mode"]) != out["storage-mode"]:
+        bad.append(("storage-mode", case["symm"], [out["storage-mode"], out.get("clr_storage_mode")]))
     if out.get("dense_shape") != [n, n]:
         bad.append(("matrix shape", [n, n], out.get("dense_shape")))
     for k in range(ncols):
@@ -1011,6 +1039,17 @@ def gen_cases(ctx):
     for cuts, forms in (([], []), ([0], ["df"]), ([0], ["dict"]), ([0, 0], ["df", "dict"])):
         cases.append({"grp": "regression-D21", "widths": [[5, 5, 2]], "symm": True, "cols": DEFAULT_COLS, "rows": [], "form": "chunks",
                       "cuts": cuts, "chunkforms": forms})
+
+    # G'. scalar type of the boolean flags at the API boundary: a third of the cases pass numpy booleans, a third 0/1 ints
+    for i, c in enumerate(cases):
+        if c.get("history") or c["grp"] in ("malformed",):
+            continue
+        how = [None, "numpy", "int"][i % 3]
+        if how:
+            c["rep"] = dict(c.get("rep", {}), flag_type=how)
+        if c["grp"] == "unordered-grid" and i % 4 == 0:
+            c["rep"] = dict(c.get("rep", {}), api="unordered_direct")
+            c["rep"]["unordered"] = dict(c["rep"]["unordered"], omit_ordered=True)
 
     # F. assembly names (known finding D13 is exercised on every run by "123", "true", "null")
     for w in ASSEMBLY_WORDS + ["", " 12 ", "[1]", "{}", "\"q\"", "1.5", "hg 19", " hg19", "hg19 ", "hg19\n", "\tmm10", "HG19", "nul", "tru e"]:
